@@ -29,6 +29,26 @@ Property clause → theorem
      MISSING for the full clause: that those end points coincide with `minPrice`/`maxPrice` — they do so only
      up to the error of `approxSqrt`/`Quo`/`Mul` rounding, which is unbounded relative to 10^-18 at prices
      near 10^20 (see notes/C06.md).
+     Under swaps (`RangedPool.SetBalances`): with the translation kept (`derive = false`)
+     `ranged_price_within_endpoints_fixed_translation` (every reserve pair of the box [0,X]×[0,Y] prices between the
+     two ends of the pool's own curve) and `ranged_price_monotone_fixed_translation`; with `derive = true`
+     `rederive_is_fresh_pool` (= `NewRangedPool` on the new reserves, history forgotten),
+     `rederive_same_iff_translation_fixpoint` (end points unchanged iff the translation is a fixed point of
+     `DeriveTranslation`) and `rederive_moves_endpoint_counterexample` (it is not: the D15 mechanism).
+
+The KEEPER level (`Model/PoolKeeper.lean`: `Keeper.ExecuteDepositRequest` / `ExecuteWithdrawRequest` / `Finish…Request`,
+the end-block batch `ExecuteRequests`, `MsgDepositAndFarm`, `MsgUnfarmAndWithdraw`; basic and ranged pools) — every
+clause lifted to every execution of a request on the pool's bank balances, bank supply and the app's WithdrawFeeRate:
+* tie keeper → arithmetic                         → `keeper_deposit_moves_amm_result`, `keeper_withdraw_moves_amm_result`
+* "never takes more than offered" (+ refund exact, failed request refunded in full) → `keeper_deposit_takes_at_most_offered`
+* "rate no better than reserves per share"        → `keeper_deposit_rate_not_better`
+* "at most pro rata reduced by the fee"           → `keeper_withdraw_at_most_prorata_minus_fee`
+* "last shares return the entire reserves" (+ burns the supply, disables the pool) → `keeper_last_share_gets_all`
+* "reserves per share never decrease" over ANY history of executed requests (failed / aborted ones and donations
+  included), `(1−10^-17)^k` for `k` deposits   → `keeper_reserves_per_share_nondecreasing` (step: `keeper_step`);
+  per pool of a whole batch                      → `keeper_batch_reserves_per_share`
+* no request gets stuck on a basic pool           → `keeper_exec_total`
+* in-transaction paths execute exactly their own request → `keeper_deposit_and_farm`, `keeper_unfarm_and_withdraw`
 -/
 namespace Comdex.C06
 open Comdex Comdex.Pool
